@@ -495,6 +495,9 @@ def check(ctx):
     from . import c14
     from ..report import Renamed
     c14.rule_reduce_axis(Renamed(ctx, {'*': 'R7'}))
+    # Dataset.reindex_axis keeps the axis object (and with it its metadata) of the axis it relabels: sibling cross-check shared with C14
+    ctx.rule('R8', 'Dataset.reindex_axis relabels the existing axis (shared with C14)', 2)
+    c14.rule_reindex(Renamed(ctx, {'*': 'R8'}))
     ctx.not_decided += ['semantics of dict.update (trusted)', 'Dataset-level propagation (decided under C14-R5)']
     ctx.trusted += ['dict.update copies all entries', 'hasattr(cls, name) is what "class member" means']
     return EXPLANATION
